@@ -1,4 +1,5 @@
 import CanopenModel.Sdo.Client
+import CanopenModel.Sdo.ReadInto
 import CanopenModel.Spec.SdoServer
 namespace Canopen.Driver.C01
 open Canopen Canopen.Sdo Canopen.Spec
@@ -31,6 +32,8 @@ def showIllegal : Option String → String
 inductive Xfer where
   | down (idx sub : Nat) (data : Bytes) (sized force : Bool) (offers : List Nat)
   | up (idx sub : Nat) (odType : Option (Option Nat))
+  /-- an upload read through `readinto` with buffers of the given sizes (what `io.BufferedReader` did) -/
+  | upInto (idx sub : Nat) (sizes : List Nat)
 
 def parseOdType (s : String) : Option (Option (Option Nat)) :=
   if s = "x" then some none else if s = "n" then some (some none) else s.toNat?.map (fun t => some (some t))
@@ -44,6 +47,9 @@ def parseXfer (s : String) : Option Xfer :=
   | ["u", i, j, t] => do
     let i ← i.toNat?; let j ← j.toNat?; let t ← parseOdType t
     pure (.up i j t)
+  | ["u", i, j, _t, sizes] => do
+    let i ← i.toNat?; let j ← j.toNat?; let sizes ← parseNatList sizes
+    pure (.upInto i j sizes)
   | _ => none
 
 def parseHeld (s : String) : Option (List ((Nat × Nat) × Bytes)) :=
@@ -55,8 +61,20 @@ def parseHeld (s : String) : Option (List ((Nat × Nat) × Bytes)) :=
       | _ => none)
     | _ => none
 
+/-- `open(…, "rb", buffering=N)` read through `readinto` with the recorded buffer sizes:
+    `ok <all bytes handed over>@<length handed over per call>` -/
+def runInto {σ} (P : Peer σ) (c : Chan σ) (i j : Nat) (sizes : List Nat) : Chan σ × String :=
+  match rsInit P c i j with
+  | (c1, .error e) => (c1, showErr e)
+  | (c1, .ok s) =>
+    match rbRun P c1 { st := s, spare := [] } sizes with
+    | (c2, .ok (_, ds)) =>
+      (c2, s!"ok {toHex ds.flatten}@{String.intercalate "." (ds.map fun d => toString d.length)}")
+    | (c2, .error e) => (c2, showErr e)
+
 def runXfer (c : Chan PS) (x : Xfer) : Chan PS × String :=
   match x with
+  | .upInto i j sizes => runInto peer c i j sizes
   | .down i j d sz f o =>
     match download peer c i j d sz f o with
     | (c', .ok _) => (c', "ok")
